@@ -25,6 +25,7 @@ func verifYield(point string) {
 // VerifSnap is the accounting state of a cache at a quiescent moment.
 type VerifSnap struct {
 	ByteSize int64            // the cache's own size counter
+	Limit    int64            // the cache's current maxCacheSize (follows the config asynchronously)
 	Entries  map[string]int64 // key hex -> Metadata.Size of every entry in the map
 	Files    map[string]int64 // file backend: name -> length of every file in the cache directory
 }
@@ -33,6 +34,7 @@ type VerifSnap struct {
 type VerifHooks interface {
 	VerifRunCleanupCycle()
 	VerifCleanExpired()
+	VerifEnsureSize()
 	VerifEvict(limit int64)
 	VerifShiftClock(d time.Duration)
 	VerifSnapshot() VerifSnap
@@ -68,6 +70,7 @@ func (c *MemoryCache[M]) VerifRunCleanupCycle() {
 	c.janitor.ensureCacheSize()
 }
 func (c *MemoryCache[M]) VerifCleanExpired()     { c.janitor.cleanExpiredEntries() }
+func (c *MemoryCache[M]) VerifEnsureSize()       { c.janitor.ensureCacheSize() }
 func (c *MemoryCache[M]) VerifEvict(limit int64) { c.janitor.evict(limit) }
 func (c *MemoryCache[M]) VerifShardOf(key CacheKey) int {
 	l := getLock(c.locks, key)
@@ -93,7 +96,7 @@ func (c *MemoryCache[M]) VerifShiftClock(d time.Duration) {
 func (c *MemoryCache[M]) VerifSnapshot() VerifSnap {
 	c.mu.RLock()
 	defer c.mu.RUnlock()
-	s := VerifSnap{ByteSize: c.byteSize.Get(), Entries: map[string]int64{}}
+	s := VerifSnap{ByteSize: c.byteSize.Get(), Limit: c.maxCacheSize.Get(), Entries: map[string]int64{}}
 	for k, e := range c.entries {
 		s.Entries[k.Hex] = e.meta.Size
 	}
@@ -107,6 +110,7 @@ func (c *FileCache[M]) VerifRunCleanupCycle() {
 	c.janitor.ensureCacheSize()
 }
 func (c *FileCache[M]) VerifCleanExpired()     { c.janitor.cleanExpiredEntries() }
+func (c *FileCache[M]) VerifEnsureSize()       { c.janitor.ensureCacheSize() }
 func (c *FileCache[M]) VerifEvict(limit int64) { c.janitor.evict(limit) }
 func (c *FileCache[M]) VerifShardOf(key CacheKey) int {
 	l := getLock(c.locks, key)
@@ -132,7 +136,7 @@ func (c *FileCache[M]) VerifShiftClock(d time.Duration) {
 func (c *FileCache[M]) VerifSnapshot() VerifSnap {
 	c.mu.RLock()
 	defer c.mu.RUnlock()
-	s := VerifSnap{ByteSize: c.byteSize.Get(), Entries: map[string]int64{}, Files: map[string]int64{}}
+	s := VerifSnap{ByteSize: c.byteSize.Get(), Limit: c.maxCacheSize.Get(), Entries: map[string]int64{}, Files: map[string]int64{}}
 	for k, m := range c.entriesMetadata {
 		s.Entries[k.Hex] = m.Size
 	}
